@@ -152,7 +152,7 @@ class Engine(EngineBase, ExprMixin, StmtMixin, CallMixin, PreludeMixin, FoldMixi
         sf = self.spec_frame(mod, c.qual, cname, entry_env, old=({}, entry_env))
         entry = St((), {}, {})
         for m in c.modifies:
-            if m in ('alloc', 'clock', 'fs', 'zk'):
+            if m in ('alloc', 'clock', 'fs', 'zk', 'zk_env'):
                 continue
             if isinstance(m, tuple):
                 cf, predtext = m
